@@ -64,9 +64,17 @@ def run_history(ctx, scenarios, nwalks, clause='history_independent'):
     events, meta = [], {}
     ids = {}
     tid = 0
+    dense = []
+    for w in walks:          # the same walk with an evaluation after every change (also a behaviour of the spec)
+        dw = []
+        for step in w['walk']:
+            dw.append(step)
+            if step[0] == 'set':
+                dw.append(['eval', 0, 0])
+        dense.append(dict(init=w['init'], walk=dw))
     for sc in scenarios:
         nd = len(sc.dims)
-        for w in walks:
+        for w in walks + dense:
             tid += 1
             cfg = [w['init'][d] % len(sc.dims[d]) for d in range(nd)]
             vals = [sc.dims[d][cfg[d]] for d in range(nd)]
